@@ -312,6 +312,67 @@ Proof.
 Qed.
 
 (* ------------------------------------------------------------------------------------------ *)
+(* 3c. the single-flight key of Revoke: Sprintf("%q:%q", access, refresh) names the pair       *)
+
+Definition unhex_lower (d : N) : N := if d <? 58 then d - 48 else d - 87.
+
+Lemma unhex_hex_lower v : unhex_lower (hex_lower v) = v.
+Proof. unfold unhex_lower, hex_lower. destruct (v <? 10) eqn:E; [replace (48 + v <? 58) with true by lia | replace (87 + v <? 58) with false by lia]; lia. Qed.
+
+(* reads a quoted body up to its closing quote; returns the content and what follows *)
+Fixpoint unquote_body (s : str) : option (str * str) :=
+  match s with
+  | [] => None
+  | c :: r =>
+      if c =? 34 then Some ([], r)
+      else if c =? 92 then
+        match r with
+        | d :: r1 =>
+            if d =? 120 then
+              match r1 with
+              | h :: l :: r2 =>
+                  match unquote_body r2 with
+                  | Some (t, rest) => Some (unhex_lower h * 16 + unhex_lower l :: t, rest)
+                  | None => None
+                  end
+              | _ => None
+              end
+            else match unquote_body r1 with Some (t, rest) => Some (d :: t, rest) | None => None end
+        | [] => None
+        end
+      else match unquote_body r with Some (t, rest) => Some (c :: t, rest) | None => None end
+  end.
+
+Lemma unquote_quote_body s rest : unquote_body (quote_body s ++ 34 :: rest) = Some (s, rest).
+Proof.
+  unfold quote_body. induction s as [|c s IH]; [reflexivity|]. cbn [flat_map]. unfold quote_byte at 1.
+  destruct (c =? 34) eqn:E34.
+  - cbn [app unquote_body N.eqb Pos.eqb]. rewrite IH. f_equal. f_equal. f_equal. lia.
+  - destruct (c =? 92) eqn:E92.
+    + cbn [app unquote_body N.eqb Pos.eqb]. rewrite IH. f_equal. f_equal. f_equal. lia.
+    + destruct ((32 <=? c) && (c <? 127)) eqn:Ep.
+      * cbn [app unquote_body]. rewrite E34, E92, IH. reflexivity.
+      * cbn [app unquote_body N.eqb Pos.eqb]. rewrite IH, !unhex_hex_lower. f_equal. f_equal. f_equal. nlia.
+Qed.
+
+Lemma quote_inj_app a a' r r' : quote a ++ r = quote a' ++ r' -> a = a' /\ r = r'.
+Proof.
+  unfold quote. cbn [app]. rewrite <- !app_assoc. cbn [app]. intros H. inversion H as [H1].
+  pose proof (unquote_quote_body a r) as Ha. rewrite H1, unquote_quote_body in Ha. inversion Ha; auto.
+Qed.
+
+(* equal keys <-> equal (access, refresh) pairs: sessions that share only one token are never merged *)
+Theorem flight_key_inj s1 s2 :
+  flight_key s1 = flight_key s2 <-> as_access s1 = as_access s2 /\ as_refresh s1 = as_refresh s2.
+Proof.
+  unfold flight_key. split.
+  - intros H. apply quote_inj_app in H as [Ha H]. cbn [app] in H. inversion H as [H1].
+    pose proof (unquote_quote_body (as_refresh s1) []) as Hr. rewrite H1, unquote_quote_body in Hr.
+    inversion Hr; auto.
+  - intros [-> ->]. reflexivity.
+Qed.
+
+(* ------------------------------------------------------------------------------------------ *)
 Section Mac.
 Variable mac : str -> str -> str.
 
@@ -697,14 +758,19 @@ Proof.
   apply (G evs cinit Hin). split; [intros ? []|]. split; [intros ? []|]. intros ? ? [].
 Qed.
 
-(* Google revokes the access token, which IS the key: no hypothesis needed *)
-Corollary conc_cleared_implies_revoked_google secret evs s :
-  In s (cs_cleared (fst (crun mac secret PGoogle evs))) -> In (revoke_token PGoogle s) (cs_revoked (fst (crun mac secret PGoogle evs))).
+(* the key names both tokens (flight_key_inj), so the guard holds for every set of sessions: the FULL
+   statement, for every provider and every interleaving *)
+Lemma consistent_always p U : consistent p U.
+Proof.
+  intros s1 s2 _ _ H. apply flight_key_inj in H as [Ha Hr]. destruct p; cbn [revoke_token]; assumption.
+Qed.
+
+Theorem conc_cleared_implies_revoked_full secret p evs s :
+  In s (cs_cleared (fst (crun mac secret p evs))) -> In (revoke_token p s) (cs_revoked (fst (crun mac secret p evs))).
 Proof.
   set (U := flat_map (fun e => match e with CReq _ q => match q_cookie q with ACSealed s => [s] | _ => [] end | _ => [] end) evs).
-  apply (conc_cleared_implies_revoked secret PGoogle U evs).
-  - intros s1 s2 _ _ H. exact H.
-  - intros now q s0 Hin Hc. unfold U. apply in_flat_map. exists (CReq now q). split; [exact Hin|]. rewrite Hc. left; reflexivity.
+  apply (conc_cleared_implies_revoked secret p U evs); [apply consistent_always|].
+  intros now q s0 Hin Hc. unfold U. apply in_flat_map. exists (CReq now q). split; [exact Hin|]. rewrite Hc. left; reflexivity.
 Qed.
 
 End Mac.
@@ -744,19 +810,29 @@ Example signout_history_example :
     = BPage 500%Z [97;64;98] (form_get k_redirect_uri (l_params l)) (form_get k_sig (l_params l)) (form_get k_ts (l_params l)).
 Proof. vm_compute. repeat split. Qed.
 
-(* Okta revokes the REFRESH token but the flight is keyed by the ACCESS token: two sessions with one
-   access token and different refresh tokens, confirming concurrently — the second is told "signed out"
-   (cookie cleared, redirected) although no revoke call carried its token.  Finding C19-K1. *)
-Theorem conc_refuted_okta :
-  exists secret evs s,
-    In s (cs_cleared (fst (crun toy_mac secret POkta evs))) /\
-    ~ In (revoke_token POkta s) (cs_revoked (fst (crun toy_mac secret POkta evs))).
-Proof.
-  set (host := [97;112;112;46;116;101;115;116]). set (secret := [115;51;99;114;51;116]).
-  set (l := p_loc (proxy_sign_out toy_mac [] secret true true host 1700000000%Z)).
-  set (s1 := {| as_email := [97]; as_access := [97;116]; as_refresh := [114;49] |}).
-  set (s2 := {| as_email := [98]; as_access := [97;116]; as_refresh := [114;50] |}).
-  exists secret, [CReq 1700000100%Z (follow l MPost true (ACSealed s1) (IdpSt 200%Z BNotJSON));
-                  CReq 1700000100%Z (follow l MPost true (ACSealed s2) (IdpSt 200%Z BNotJSON))], s2.
-  vm_compute. split; [left; reflexivity|]. intros [H|[]]. discriminate.
-Qed.
+(* historical: before 7e98525 the flight was keyed by the access token alone and this history refuted the
+   statement for Okta (finding C19-K1: s2 cleared, r2 never revoked).  With the repaired key both calls are made. *)
+Example conc_okta_regression :
+  let host := [97;112;112;46;116;101;115;116] in
+  let secret := [115;51;99;114;51;116] in
+  let l := p_loc (proxy_sign_out toy_mac [] secret true true host 1700000000%Z) in
+  let s1 := {| as_email := [97]; as_access := [97;116]; as_refresh := [114;49] |} in
+  let s2 := {| as_email := [98]; as_access := [97;116]; as_refresh := [114;50] |} in
+  let evs := [CReq 1700000100%Z (follow l MPost true (ACSealed s1) (IdpSt 200%Z BNotJSON));
+              CReq 1700000100%Z (follow l MPost true (ACSealed s2) (IdpSt 200%Z BNotJSON))] in
+  cs_cleared (fst (crun toy_mac secret POkta evs)) = [s2; s1] /\
+  cs_revoked (fst (crun toy_mac secret POkta evs)) = [[114;50]; [114;49]] /\
+  map r_revoked (snd (crun toy_mac secret POkta evs)) = [[[114;49]]; [[114;50]]].
+Proof. vm_compute. repeat split. Qed.
+
+(* two tabs of ONE session (same pair) are still merged: one call, both cleared *)
+Example conc_same_session_merged :
+  let host := [97;112;112;46;116;101;115;116] in
+  let secret := [115;51;99;114;51;116] in
+  let l := p_loc (proxy_sign_out toy_mac [] secret true true host 1700000000%Z) in
+  let s1 := {| as_email := [97]; as_access := [97;116]; as_refresh := [114;49] |} in
+  let evs := [CReq 1700000100%Z (follow l MPost true (ACSealed s1) (IdpSt 200%Z BNotJSON));
+              CReq 1700000100%Z (follow l MPost true (ACSealed s1) (IdpSt 200%Z BNotJSON))] in
+  map r_revoked (snd (crun toy_mac secret POkta evs)) = [[[114;49]]; []] /\
+  map r_clears (snd (crun toy_mac secret POkta evs)) = [true; true].
+Proof. vm_compute. repeat split. Qed.
